@@ -1231,6 +1231,12 @@ def c11(chk):
                        dict(Lens={0, 1, 2, 3, 4} if quick else {0, 1, 2, 3, 4, 5, 6, 9}, Kinds={"none", "cut", "cancel"}, Apis={"get", "reader"}, Variant=up_var, Unit=unit),
                        view=None, emit="Emit", invariants=("XReadIsExact", "Prefix"), properties=(), exe="faults", fs=False, chunk=12)
     os.environ.pop("VERIF_SEED_SHIFT", None)
+    # what travels in one message: long keys (header / unary request) and long listings (GetKeys answer); 1 unit = 256 KiB
+    spec_stage(chk, "one_message", "Wire.tla",
+               dict(KeyUnits={0, 1, 5, 15, 17} if quick else {0, 1, 3, 5, 8, 15, 16, 17}, MaxKeys=3 if quick else 4, Limit=16,
+                    Variant="repaired" if fixed_sig("getkeys-above-message-limit") else "asfound"),
+               view=None, emit="Emit", invariants=("XListingTravels", "XKeysTravel"), properties=(), exe="wire", fs=False, chunk=8,
+               sample=60 if quick else 600)
     l0_traces(chk, "ext_traces", 12 if quick else 120, 300, 6, 4, "set,del,begin,commit,rollback,gc,emptyset,late,reopen", mode="external", big=True)
     l1_stage(chk, "ext_sim", dict(Keys=K3, MaxTx=3, MaxSteps=30, Levels={"RU", "RC", "RR", "SER"}, Ops=TXOPS | {"emptyset", "gc"}),
              mode="both", simulate=40 if quick else 800, depth=30)
